@@ -11,6 +11,7 @@ import (
 	"io"
 	"net"
 	"os"
+	"runtime"
 	"sort"
 	"strconv"
 	"sync"
@@ -39,6 +40,9 @@ type (
 	TCPConn    = net.TCPConn
 	AddrError  = net.AddrError
 )
+
+// DebugDial logs the stack of refused dials as observations.
+var DebugDial = false
 
 var (
 	DefaultResolver = net.DefaultResolver
@@ -114,6 +118,23 @@ type Host struct {
 	Lns      []*TCPListener
 	UDPs     []*UDPConn
 	ListenLog []string
+	DialLog   []DialRec
+	blackhole map[int]bool
+}
+
+// DialRec records one TCP connection attempt.
+type DialRec struct {
+	At   time.Duration
+	Port int
+	OK   bool
+}
+
+// Blackhole makes connection attempts to the port hang until the dialer's context expires.
+func (h *Host) Blackhole(port int, on bool) {
+	if h.blackhole == nil {
+		h.blackhole = map[int]bool{}
+	}
+	h.blackhole[port] = on
 }
 
 var (
@@ -361,8 +382,14 @@ func (h *Host) DialFrom(src string, address string) (*StreamConn, error) {
 	}
 	l := h.tcp[port]
 	if l == nil || l.closed {
+		h.DialLog = append(h.DialLog, DialRec{At: h.x.Now(), Port: port})
+		if DebugDial {
+			buf := make([]byte, 4096)
+			vs.Observe("refused dial to %d from:\n%s", port, buf[:runtime.Stack(buf, false)])
+		}
 		return nil, refused("tcp", dst)
 	}
+	h.DialLog = append(h.DialLog, DialRec{At: h.x.Now(), Port: port, OK: true})
 	var sa *TCPAddr
 	if src != "" {
 		sip, sport, err := parseHostPort(src)
@@ -415,6 +442,22 @@ func (d *Dialer) Dial(network, address string) (Conn, error) { return Dial(netwo
 func (d *Dialer) DialContext(ctx context.Context, network, address string) (Conn, error) {
 	if err := ctx.Err(); err != nil {
 		return nil, err
+	}
+	if h := curHost(); h != nil && vs.Me() != nil {
+		if _, port, err := parseHostPort(address); err == nil && h.blackhole[port] {
+			// no answer at all: the attempt ends when the caller's context does
+			h.DialLog = append(h.DialLog, DialRec{At: h.x.Now(), Port: port})
+			done := ctx.Done()
+			vs.Block("dial-blackhole", func() bool {
+				select {
+				case <-done:
+					return true
+				default:
+					return false
+				}
+			})
+			return nil, &net.OpError{Op: "dial", Net: network, Err: ctx.Err()}
+		}
 	}
 	return Dial(network, address)
 }
